@@ -78,7 +78,7 @@ type foreign struct {
 func discover() (subs []*subject, notes []string) {
 	byKey := map[string]*subject{}
 	for _, t := range gcore.Types() {
-		if !(strings.HasPrefix(t.File, "p2ext") || t.File == "p2def") || t.Name != "Extendable" {
+		if !(strings.HasPrefix(t.File, "p2ext") || t.File == "p2def") || t.File == "p2extreq" || t.Name != "Extendable" { // p2extreq (required fields inside an extension value) is C17 territory
 			continue
 		}
 		s := &subject{label: fmt.Sprintf("%s/%s.%s", t.RT, t.File, t.Name), rt: string(t.RT), file: t.File, newMsg: t.New, hasGen: true, baseNum: 1, gt: t}
